@@ -68,6 +68,17 @@ def bases():
         init=S3,
         univ=[S3[0], S3[1], S3[2], g1([2])[0], g1([7])[0]],
         weight=25)
+    # keys with runs of equal bytes: a walk that interprets a node one byte too early or too late (its prefix was cut or
+    # prepended in place since the pointer to it was loaded) still finds matching prefix bytes and an existing child
+    Z = [key(0, 0, 0, 0, 0, 0, x, 0) for x in (0, 1, 2)]
+    B["zero_run"] = dict(
+        init=Z,
+        univ=[Z[1], Z[0], key(1), key(0, 0, 0, 0, 0, 1)],
+        weight=30)
+    B["zero_run_two_level"] = dict(
+        init=[key(1), Z[0], Z[1]],
+        univ=[key(1), Z[0], Z[1], Z[2]],
+        weight=30)
     # three levels: root I4 -> I4 -> I4 of leaves; collapse of the middle
     B["three_level"] = dict(
         init=[key(1, 1, 1), key(1, 1, 2), key(1, 2, 1), key(2)],
@@ -230,11 +241,32 @@ def c04(tier):
         for k in present[:2]:
             for reader in (["q", "g:" + k, "g:" + present[-1]], ["g:" + k, "g:" + k], ["q", "g:" + k, "q", "g:" + present[-1]]):
                 for writer in (["r:" + k], ["r:" + k, "q"], ["q", "r:" + k]):
-                    for idle in ([], ["q"]):
+                    for idle in ([], ["q"], ["pu", "q"]):
                         out.append(dict(id="c04-%s-leave-%s--%s--%s" % (name, "".join(x.replace(":", "") for x in reader),
                                                                         "".join(x.replace(":", "") for x in writer), "".join(idle) or "_"),
                                         init=base["init"], threads=[reader, writer, idle], bound=1 if tier == "quick" else 2, base=name,
                                         shards=1 if tier == "quick" else 4))
+    # a reader holding a view, a remover whose quiescent state changes the epoch, and a thread that joins (resume) while that
+    # change is in progress; barriers (b) bring the three to that state without spending scheduling deviations
+    for name in ("two_level", "two_leaves"):
+        base = B[name]
+        present = [k for k in base["univ"] if k in base["init"]]
+        for k in present[:2]:
+            for reader in (["q", "g:" + k, "b", "b"], ["g:" + k, "b", "b"], ["q", "s:f", "b", "b"]):
+                for writer in (["b", "r:" + k, "q", "q", "b"], ["b", "r:" + k, "q", "b"], ["q", "b", "r:" + k, "q", "q", "b"]):
+                    for joiner in (["p", "b", "u", "q"], ["p", "b", "u", "q", "q"], ["p", "b", "u"]):
+                        out.append(dict(id="c04-%s-join-%s--%s--%s" % (name, "".join(x.replace(":", "") for x in reader),
+                                                                       "".join(x.replace(":", "") for x in writer), "".join(joiner)),
+                                        init=base["init"], threads=[reader, writer, joiner], bound=1 if tier == "quick" else 2,
+                                        base=name, shards=1 if tier == "quick" else 4))
+    # two writers on one node (no reader): a restart path that retires a node twice, or retires one that stays linked, shows
+    # when the retired blocks are freed in the drain and in the final sweep
+    ww_bases = ("two_level", "two_leaves", "three_level", "i4_three", "zero_run_two_level")
+    if tier == "thorough":
+        ww_bases += ("two_level_wide", "i4_full", "i16_min", "below_i16", "zero_run")
+    for s in c03(tier):
+        if s.get("base") in ww_bases and len(s["threads"]) == 2 and all(len(t) == 1 and t[0][0] in "ir" for t in s["threads"]):
+            out.append(dict(s, id=s["id"].replace("c03-", "c04-ww-", 1)))
     # two writers retiring concurrently + a reader (three threads)
     for name in ("two_level", "two_leaves"):
         base = B[name]
@@ -340,6 +372,8 @@ def c14(tier):
 def _valid_qsbr(p):
     reg = not p.startswith("U")
     for i, c in enumerate(p):
+        if c == "B":
+            continue
         if c == "X":
             return i + 1 == len(p)
         if c == "U":
@@ -400,13 +434,20 @@ def qsbr(prop, tier):
         # joiners: one thread is alone in QSBR and in the middle of its quiescent states while two others start, one of
         # them retiring, one of them taking a reference and holding it
         for sole in ("QQ", "QQQ"):
-            for n in ("URQQ", "URQ", "UQRQ"):
+            for n in ("URQQ", "URQ", "UQRQ", "URX") + (("URP", "URQX") if tier == "thorough" else ()):
                 for z in ("UQW", "UQQ", "UW"):
                     import os as _os
                     jb = int(_os.environ.get("VERIF_JOIN_BOUND", "2" if tier == "quick" else "3"))
                     jd = _os.environ.get("VERIF_JOIN_DELAY", "0") == "1"
                     out.append(dict(id="qsbr-join-%s-%s-%s" % (sole, n, z), runner="qsbr", threads=[sole, n, z],
                                     bound=jb, delay_bounded=jd, shards=1 if tier == "quick" else 4))
+        # rounds: barriers (B) take a holder, a retirer and a third thread (quiescing / pausing and resuming / starting
+        # late) through complete rounds at no cost in deviations, so that the bound is spent inside the later epoch changes
+        for h in ("QBBW", "BQBW", "QBQBW"):
+            for r in ("RQBQBX", "QBRQBX", "RQBBQQ", "QBRBQQ"):
+                for c in ("QBBQQ", "PBUBQQ", "QBPBUQ", "UQBBQ"):
+                    out.append(dict(id="qsbr-rounds5-%s-%s-%s" % (h, r, c), runner="qsbr", threads=[h, r, c],
+                                    bound=2 if tier == "quick" else 3, shards=1 if tier == "quick" else 4))
     else:
         progs = qsbr_programs(2)
         sets = [c for c in itertools.combinations_with_replacement(progs, 3) if "R" in "".join(c)]
@@ -420,6 +461,21 @@ def qsbr(prop, tier):
         for a in ("QRR", "QRRQ", "RQRR", "QRQR", "RRQ", "RQX", "RQP", "RQQX", "QRQX"):
             for b in ("Q", "QQ", "QQQ", "QX", "X", "PU", "QQQQ"):
                 out.append(dict(id="qsbr-r2-%s-%s" % (a, b), runner="qsbr", threads=[a, b], bound=3 if tier == "quick" else 4))
+        # rounds: barriers (B) bring all threads through one complete round (epoch change) and the first two through a
+        # further quiescent state at no cost in deviations; then those two leave or pause with requests of an earlier
+        # interval while the third, last in its epoch, performs the next epoch change
+        for a in ("RQBQBX", "RQBQBP", "RQBRQBX"):
+            for b in ("RQBQBX", "RQBQBP"):
+                for c in ("QBBQ", "QBBQQ", "RQBBQ"):
+                    out.append(dict(id="qsbr-rounds-%s-%s-%s" % (a, b, c), runner="qsbr", threads=[a, b, c],
+                                    bound=2 if tier == "quick" else 3, shards=1 if tier == "quick" else 4))
+        # two threads leave with requests of an earlier interval during one epoch change of a third (orphan list with two
+        # racing nodes)
+        for a in ("RQX", "RQP"):
+            for b in ("RQX", "RQP", "RQQX"):
+                for c in ("QQ", "QQQ", "QQQQ"):
+                    out.append(dict(id="qsbr-2leave-%s-%s-%s" % (a, b, c), runner="qsbr", threads=[a, b, c],
+                                    bound=2 if tier == "quick" else 3))
         # threads leaving with pending requests while another changes the epoch
         for a in ("RX", "RP", "RQX", "RRX", "RQP"):
             for b in ("QQ", "QX", "X", "PU", "QQQ"):
